@@ -32,6 +32,7 @@ var (
 	ErrColCountMismatch  = errors.New("value list count does not match column list count")
 	ErrDBExists          = errors.New("database already exists")
 	ErrDBNotExist        = errors.New("database does not exist")
+	ErrInvalidDBName     = errors.New("invalid database name")
 	ErrDBNotSelected     = errors.New("database not been selected")
 	ErrFieldAmbiguous    = errors.New("field is ambiguous")
 	ErrFieldNotFound     = errors.New("field not found")
@@ -355,7 +356,7 @@ func ShowDB() ([]*Row, []*Field, error) {
 
 func CreateDB(dbName string) error {
 	if err := makeDBDir(dbName); err != nil {
-		panic(fmt.Sprintf("error making db dir: %s", err.Error()))
+		return err
 	}
 
 	path, exists, err := dbFilePath(dbName)
